@@ -222,6 +222,7 @@ let handle ~(c07 : bool) ~(c18 : bool) (fields : string list) (impl : string) : 
     let ximpl = ref (parse_xtable ctx h) in
     let timpl = ref (!ximpl).core in
     let hist = ref [] in
+    let inflight : n list ref = ref [] in   (* requests started and not yet answered, according to the history *)
     if c07 then mons := !mons @ c07_monitors ~full:true !timpl "step=0";
     let nsteps = Array.length snaps - 1 in
     List.iteri (fun k o ->
@@ -258,7 +259,27 @@ let handle ~(c07 : bool) ~(c18 : bool) (fields : string list) (impl : string) : 
                   mons := !mons @ [Printf.sprintf "reval-new-record-unexpected %s got=%s want=%s" where ri (str_outcome ctx (er, enr'))]
               | _ -> ())
            | _ -> ());
-          mons := !mons @ c18_monitors !timpl !hist o' t' where
+          mons := !mons @ c18_monitors !timpl !hist o' t' where;
+          (* activeReq against the requests in flight according to the history (C18_active_is_in_flight) *)
+          let ids (t : table) = List.map fst t.gl.active in
+          let before = ids !timpl in
+          (match o' with
+           | RevalRun (_, _, _) ->
+             (* what the run must start when only the requests really in flight are excluded *)
+             let th = { !timpl with gl = { (!timpl).gl with active = List.filter (fun (i, _) -> List.mem i !inflight) (!timpl).gl.active } } in
+             (match step th o' with
+              | Some te ->
+                List.iter (fun i ->
+                  if not (List.mem i (ids th)) && (List.mem i before || not (List.mem i (ids t'))) then
+                    mons := !mons @ [Printf.sprintf "due-entry-never-revalidated %s node=%s" where (ix ctx i)]) (ids te)
+              | None -> ());
+             List.iter (fun i -> if not (List.mem i before) && not (List.mem i !inflight) then inflight := i :: !inflight) (ids t')
+           | RevalResp (id, _, _, _) -> inflight := List.filter (fun i -> i <> id) !inflight
+           | _ -> ());
+          List.iter (fun i ->
+            if not (List.mem i !inflight) then
+              mons := !mons @ [Printf.sprintf "request-marked-active-without-request-in-flight %s node=%s" where (ix ctx i)]) (ids t');
+          if not (pol_active_b !timpl o' t') then mons := !mons @ ["active-set-changed-unexpectedly " ^ where]
         end;
         hist := fails_step !hist o';
         ximpl := x';
